@@ -145,6 +145,16 @@ Proof.
   destruct l; cbn; auto. destruct i; cbn; auto. apply IH. lia.
 Qed.
 
+Lemma NoDup_app_intro l1 l2 :
+  NoDup l1 -> NoDup l2 -> (forall x : A, In x l1 -> In x l2 -> False) -> NoDup (l1 ++ l2).
+Proof.
+  induction l1 as [|a l1 IH]; intros N1 N2 D; cbn; auto.
+  inversion N1 as [|? ? Hn N1']; subst. constructor.
+  - intros Hin. apply in_app_or in Hin. destruct Hin as [Hin|Hin]; [contradiction|].
+    apply (D a); [left; reflexivity|exact Hin].
+  - apply IH; auto. intros x H1 H2. apply (D x); [right; exact H1|exact H2].
+Qed.
+
 Lemma len_app l1 l2 : len (l1 ++ l2) = len l1 + len l2.
 Proof. unfold len. rewrite app_length. lia. Qed.
 
